@@ -88,6 +88,16 @@ func (h H) rejectOrEnqueue(rule string) {
 	fn := h.fn("raft:(*leader).storeEntry")
 	sim := h.simAll()
 	sim.MaxPaths = 20000
+	// see through helpers that were handed the entry being processed (a
+	// rejection chain extracted into its own function, say)
+	sim.InlineDeep = func(callee *ssa.Function) bool {
+		for _, p := range callee.Params {
+			if strings.HasSuffix(p.Type().String(), ".newEntry") {
+				return true
+			}
+		}
+		return false
+	}
 	ts := sim.Run(fn)
 	nLink, nRej := 0, 0
 	for _, t := range ts {
@@ -218,6 +228,28 @@ func (h H) lostFlagDiscipline(rule string) {
 		}
 	})
 	h.C.Check(rule+" constructor", "notLeaderError", okLost, h.fpos(nle), "notLeaderError must store its lost argument")
+	// ... on every path: each returned value has its own Lost := lost store before the return
+	for k, r := range core.Returns(nle) {
+		v := r.Results[0]
+		if ld, ok := v.(*ssa.UnOp); ok {
+			v = ld.X
+		}
+		okRet := false
+		if al, ok := v.(*ssa.Alloc); ok {
+			for _, ref := range *al.Referrers() {
+				fa, ok := ref.(*ssa.FieldAddr)
+				if !ok || !strings.HasSuffix(fi.Sym(fa).String(), ".Lost") {
+					continue
+				}
+				for _, rr := range *fa.Referrers() {
+					if st, ok := rr.(*ssa.Store); ok && st.Addr == ssa.Value(fa) && fi.Sym(st.Val).String() == "$1" && core.Dominates(st, r) {
+						okRet = true
+					}
+				}
+			}
+		}
+		h.C.Check(rule+" constructor", fmt.Sprintf("notLeaderError return#%d", k+1), okRet, h.pos(r), "a NotLeaderError is returned whose Lost flag is not the caller's lost argument (the zero value false means 'definitely not applied')")
+	}
 	// leader.release answers every pending entry; with ErrServerClosed iff closed
 	rel := h.fn("raft:(*leader).release")
 	rfi := h.P.Info(rel)
